@@ -866,6 +866,8 @@ pub fn resolve<'a>(
     filter_graph: Option<&Vec<GraphFilter>>,
     store: &Store,
 ) -> ResolveReport<'a> {
+    #[cfg(all(test, cargo_vet_verif))]
+    verif_tap::call(store, None);
     // A large part of our algorithm is unioning and intersecting criteria, so we map all
     // the criteria into indexed boolean sets (*whispers* an integer with lots of bits).
     let graph = DepGraph::new(metadata, filter_graph, Some(&store.config.policy));
@@ -951,6 +953,25 @@ fn resolve_requirements(
     }
 
     requirements
+}
+
+/// Verification hook: lets the harness observe the exact store (and update mode)
+/// that `resolve` / `get_store_updates` are called with inside real commands.
+#[cfg(all(test, cargo_vet_verif))]
+pub(crate) mod verif_tap {
+    use super::{Store, UpdateMode};
+    use std::cell::RefCell;
+    pub(crate) type ModeFn<'a> = &'a mut dyn FnMut(&str) -> UpdateMode;
+    pub(crate) type Tap = Box<dyn FnMut(&Store, Option<ModeFn<'_>>)>;
+    thread_local! { pub(crate) static TAP: RefCell<Option<Tap>> = const { RefCell::new(None) }; }
+    pub(crate) fn call(store: &Store, mode: Option<ModeFn<'_>>) {
+        // Take the tap out while it runs so that it may call the resolver itself.
+        let tap = TAP.with(|t| t.borrow_mut().take());
+        if let Some(mut f) = tap {
+            f(store, mode);
+            TAP.with(|t| *t.borrow_mut() = Some(f));
+        }
+    }
 }
 
 /// Verification hook: exposes the private requirement computation to the harness.
@@ -2902,6 +2923,8 @@ pub(crate) fn get_store_updates(
     store: &Store,
     mut mode: impl FnMut(PackageStr<'_>) -> UpdateMode,
 ) -> StoreUpdates {
+    #[cfg(all(test, cargo_vet_verif))]
+    verif_tap::call(store, Some(&mut |name: &str| mode(name)));
     // Compute the set of required entries from the store for all packages in
     // the dependency graph.
     let graph = DepGraph::new(
